@@ -80,7 +80,7 @@ func verifyLemmas(P *Program, L *Library, labels []string, opt solveOpts) []*Fun
 			x.emit(st, lab, "lemma", t, unf, 0)
 		}()
 		fr.Obls = x.obls
-		fr.Prelude = strings.Join(x.C.decls, "\n") + "\n"
+		fr.Prelude = x.prelude()
 		fr.Used = sortedKeys(x.C.used)
 		solveAll(fr.Prelude, fr.Obls, opt)
 		out = append(out, fr)
